@@ -39,12 +39,12 @@ type c06NumaKind struct {
 }
 
 type c06NumaCase struct {
-	Kind    string  `json:"kind"`
-	Nodes   int     `json:"numa_nodes"`
-	Hint    []int   `json:"hint"`
-	Free    []int64 `json:"free_milli_by_node"`
-	Request int64   `json:"request_milli"`
-	Result  string  `json:"result"`
+	Kind    string   `json:"kind"`
+	Nodes   int      `json:"numa_nodes"`
+	Hint    []int    `json:"hint"`
+	Free    []int64  `json:"free_milli_by_node"`
+	Request int64    `json:"request_milli"`
+	Result  string   `json:"result"`
 	Reasons []string `json:"reasons"`
 }
 
